@@ -33,6 +33,17 @@ Theorem prep_rowwise : forall mdf nz l lead t,
 Proof. exact prep_rowwise_lemma. Qed.
 Print Assumptions prep_rowwise.
 
+(* every batch composition and ordering: the prepared row of an observation depends on that observation only —
+   not on its position, not on the batch size or the (step, env) layout, not on the observations sharing the call *)
+Theorem prep_row_determined : forall mdf nz l lead1 t1 lead2 t2 t1' t2' i j,
+  supported mdf l lead1 t1 -> supported mdf l lead2 t2 ->
+  prep_leaf mdf nz l t1 = Some t1' -> prep_leaf mdf nz l t2 = Some t2' ->
+  i < prod lead1 -> j < prod lead2 ->
+  nth i (chunks (prod (space_shape l)) (prod lead1) (dat t1)) [] = nth j (chunks (prod (space_shape l)) (prod lead2) (dat t2)) [] ->
+  nth i (rows t1') [] = nth j (rows t2') [].
+Proof. exact prep_row_determined_lemma. Qed.
+Print Assumptions prep_row_determined.
+
 (* Discrete, value level, for EVERY input shape: as long as at most two dimensions survive the squeeze
    (n > 1) / are present (n = 1), the result is [number of observations; n] and consists of the one-hot rows
    of the class indices in order: squeeze() never eats the batch dimension, also for n = 1, batch-of-one,
